@@ -183,7 +183,7 @@ func (cl *Cluster) Concrete(c string, i int, r AbsReq) []byte {
 		if j < len(r.Slots) {
 			s = r.Slots[j]
 		}
-		return "{" + cl.TagOf[s] + "}" + c + "." + strconv.Itoa(i) + "." + strconv.Itoa(j)
+		return "{" + cl.TagOfName(s) + "}" + c + "." + strconv.Itoa(i) + "." + strconv.Itoa(j)
 	}
 	switch r.K {
 	case "get":
